@@ -687,7 +687,12 @@ func runC08(c *Ctx) {
 			}
 			nd++
 			builders[df] = true
-			ok, _ := pd.prove(leq(linConst(3), pd.linOf(cc.Args[1]), "at least three dashes"), in, nil, 0)
+			goal := leq(linConst(3), pd.linOf(cc.Args[1]), "at least three dashes")
+			ok, _ := pd.prove(goal, in, nil, 0)
+			if !ok {
+				// the clamp may be applied by the caller of a helper that only repeats
+				ok, _ = c.Idx().liftGoal(df, goal, in, 0)
+			}
 			r.Check("R08.4", FuncName(df), fmt.Sprintf("dash run #%d has at least three dashes", nd), in.Pos(), ok, "the width is not clamped to >= 3 before repeating")
 		})
 	}
